@@ -5,8 +5,8 @@ import OdfModel.Coord
 
   * a `timedelta` is its total number of microseconds (`Int`) — Python normalises to
     (days, seconds, microseconds) with `days = floor(total / 86400e6)`, so `days < 0 ↔ total < 0`;
-  * `Duration.encode` divides in floating point and `%02d` truncates; the model divides in ℕ
-    (equal for |total| < 2^53 µs, which the correspondence checks on the boundary lattice);
+  * `Duration.encode` uses integer `divmod` (since fix 5831ab8); the model divides in ℕ
+    (exactly Python's arbitrary-precision arithmetic, no bound);
   * `Duration.decode` is the regular expression `_RE_DURATION` transcribed as a deterministic
     scanner (`optNum` = `(?:([0-9]+)X)?`);
   * `date.isoformat` / `datetime.isoformat` / `datetime.fromisoformat` are CPython; they are
@@ -36,6 +36,11 @@ def numVal (cs : List Char) : Nat := decVal (cs.map charDigit)
 
 /-! ### Duration -/
 
+/-- `str.rstrip("0")` on a digit list -/
+def rstripZeros (ds : List Nat) : List Nat := (ds.reverse.dropWhile (· == 0)).reverse
+
+/-- `Duration.encode`: integer `divmod`s; the microseconds that remain are written as a
+    fraction of the seconds field, `f"{us:06d}".rstrip("0")`, only when non zero -/
 def encodeDur (total : Int) : List Char :=
   let us := total.natAbs
   let hours := us / 3600000000
@@ -43,8 +48,10 @@ def encodeDur (total : Int) : List Char :=
   let minutes := us1 / 60000000
   let us2 := us1 % 60000000
   let seconds := us2 / 1000000
+  let frac := us2 % 1000000
   (if total < 0 then ['-'] else []) ++ ['P', 'T'] ++ digitsStr (pad2 hours) ++ ['H'] ++
-    digitsStr (pad2 minutes) ++ ['M'] ++ digitsStr (pad2 seconds) ++ ['S']
+    digitsStr (pad2 minutes) ++ ['M'] ++ digitsStr (pad2 seconds) ++
+    (if frac = 0 then [] else '.' :: digitsStr (rstripZeros (fixedDigits 6 frac))) ++ ['S']
 
 /-- `(?:([0-9]+)X)?` at the head of `cs` -/
 def optNum (x : Char) (cs : List Char) : Option Nat × List Char :=
